@@ -148,7 +148,7 @@ def shipped(ctx):
     if answers is not None:
         for (name, desc, ops, outs, log), ans in zip(metas, answers):
             kind, val, mlog = envs.decode_env(desc, ans)
-            if kind != 'ok' or val != outs or impl.norm_log(mlog) != impl.norm_log(log):
+            if kind != 'ok' or not core.same(val, outs) or impl.norm_log(mlog) != impl.norm_log(log):
                 first = next((i for i, (a, b) in enumerate(zip(val or [], outs)) if a != b), None) if kind == 'ok' else None
                 ctx.disagreement('shipped configuration: factory-built environment and model environment differ',
                                  {'file': name, 'first_difference': first, 'model_kind': kind})
